@@ -9,7 +9,7 @@ use crate::refmodel::*;
 use crate::Args;
 use alpha_g_detector::alpha16::aw_map::TpcWirePosition;
 use alpha_g_detector::alpha16::{Adc32ChannelId, BoardId as ABoard};
-use alpha_g_detector::padwing::map::TpcPadPosition;
+use alpha_g_detector::padwing::map::{TpcPadPosition, TpcPwbColumn, TpcPwbPosition, TpcPwbRow};
 use alpha_g_detector::padwing::{AfterId, BoardId as PBoard, PadChannelId};
 use alpha_g_physics::MainEvent;
 use serde_json::json;
@@ -295,6 +295,44 @@ pub fn run(args: &Args) -> i32 {
         let mut banks: Banks = vec![("ATAT".into(), trg_packet(ts))];
         banks.extend(pwb_banks(board, 1, &pwb_payload(board, 1, PAD_NS, &chans), 8192));
         judge(run, &banks, ts, Some((vec![], vec![])), json!({"no_pad_channels": true, "board": board, "readouts": ros}), loc);
+    });
+
+    // 4e. "the run's map": the board tables of the detector crate are named after their first run (4418, 10418); the
+    //     snapshot of those documented tables says where every board sits for every historic run
+    rep.run("documented-board-positions", 11502 * 71, 120, true, "every run number 0..=11500 and the simulation run x all 71 PadWing boards: TpcPwbPosition::try_new gives the position of the documented table in force (first run 4418 / 10418; the simulation run maps like run 5000), an error for boards not in it and for runs before the first table", |idx, loc| {
+        let (ri, bi) = (idx / 71, (idx % 71) as usize);
+        let run = if ri == 11501 { u32::MAX } else { ri as u32 };
+        let board = PWB_BOARDS[bi].0;
+        let table = if run == u32::MAX { Some(&PWB_MAP_4418) } else if run >= 10418 { Some(&PWB_MAP_10418) } else if run >= 4418 { Some(&PWB_MAP_4418) } else { None };
+        let want = table.and_then(|t| (0..8).flat_map(|c| (0..8).map(move |r| (c, r))).find(|&(c, r)| t[c][r] == board)).map(|(c, r)| TpcPwbPosition::new(TpcPwbColumn::try_from(c).unwrap(), TpcPwbRow::try_from(r).unwrap()));
+        let got = guard(|| TpcPwbPosition::try_new(run, PBoard::try_from(board).unwrap()).ok());
+        loc.note(hash64(&(run, bi, "pos")), run >= 4418, if want.is_some() { "installed" } else { "not-installed" });
+        match got {
+            Err(p) => loc.violation(format!("panic:map:{}", panic_site(&p)), json!({"run": run, "board": board, "panic": p})),
+            Ok(g) => {
+                if g != want {
+                    loc.violation("map:board-position-differs-from-documented-table", json!({"run": run, "board": board, "library": format!("{g:?}"), "documented": format!("{want:?}")}));
+                }
+            }
+        }
+    });
+
+    rep.run("documented-wire-map-epoch", 11502, 120, true, "every run number 0..=11500 and the simulation run x 8 Alpha16 boards x 32 channels: an error before run 2941 (the first run of the documented preamp table), the documented wire from then on", |ri, loc| {
+        let run = if ri == 11501 { u32::MAX } else { ri as u32 };
+        loc.note(hash64(&(run, "wire-epoch")), run >= 2941, if run >= 2941 { "mapped" } else { "no-map" });
+        match crate::props::c08::wire_lookup(run) {
+            Err(p) => loc.violation(format!("panic:map:{}", panic_site(&p)), json!({"run": run, "panic": p})),
+            Ok(v) => {
+                for (i, got) in v.iter().enumerate() {
+                    let (board, ch) = (A16_BOARDS[i / 32].0, (i % 32) as u8);
+                    let want = if run >= 2941 { Some(crate::props::c08::ref_wire(board, ch)) } else { None };
+                    if *got != want {
+                        loc.violation("map:wire-differs-from-documented-table", json!({"run": run, "board": board, "channel": ch, "library": got, "documented": want}));
+                        break;
+                    }
+                }
+            }
+        }
     });
 
     // 5. every single inconsistency at every bank position (simulation run)
